@@ -63,6 +63,20 @@ pub trait Tlend {
     fn tail(&self) -> u64;
 }
 impl Tlend for Imp { type Lent = Imp; fn lead(&self) -> u64 { self.v ^ 21 } fn lend(&self) -> &Imp { self } fn tail(&self) -> u64 { self.v ^ 22 } }
+#[cglue_trait]
+pub trait TlendMut {
+    #[wrap_with_obj_mut(Tabc)]
+    type LentM: Tabc + 'static;
+    fn lend_mut(&mut self) -> &mut Self::LentM;
+}
+impl TlendMut for Imp { type LentM = Imp; fn lend_mut(&mut self) -> &mut Imp { self } }
+#[cglue_trait]
+pub trait TlendLt<'a> {
+    #[wrap_with_obj_mut(Tabc)]
+    type LentL: Tabc + 'a;
+    fn lend_lt(&'a mut self) -> &'a mut Self::LentL;
+}
+impl<'a> TlendLt<'a> for Imp { type LentL = Imp; fn lend_lt(&mut self) -> &mut Imp { self } }
 cglue_trait_group!(GLend, { Tlend }, { Tabc });
 cglue_impl_group!(Imp, GLend, { Tabc });
 
